@@ -12,11 +12,11 @@ CHECKS = {
     "C18": dict(
         pkg="c18", race=False,
         technique="lock-step reference-model monitor + reset-twin relational monitor over seeded op sequences",
-        level_text="The moving variance is compared with a model composed of two public moving averages (squared deviation of each sample from the running mean of the samples before it). For the exponential average the warm-up mean is checked after Updates as well. MinimumMeasurement.Update with a positive result is modelled as one more sample. Reset overlapping Add (300 rounds per case; free-running, or both queued behind an identity Update that holds the instance lock and yields): afterwards the instance equals, bit for bit, a new instance with or without that sample. Every Add/Get/Reset/Update result of the real primitives is compared online with an independent reference fold "
+        level_text="Moving percentile: every fifth Add is a sample exactly equal to the current estimate; the estimate never moves away from the sample it is shown. The moving variance is compared with a model composed of two public moving averages (squared deviation of each sample from the running mean of the samples before it). For the exponential average the warm-up mean is checked after Updates as well. MinimumMeasurement.Update with a positive result is modelled as one more sample. Reset overlapping Add (300 rounds per case; free-running, or both queued behind an identity Update that holds the instance lock and yields): afterwards the instance equals, bit for bit, a new instance with or without that sample. Every Add/Get/Reset/Update result of the real primitives is compared online with an independent reference fold "
                    "(minimum, latest, warm-up mean, hull, variance>=0), reset twins are compared bit-for-bit, the flag is checked against "
                    "observed value changes, and window folds against a reference and a permutation - over thousands (quick) to hundreds of "
                    "thousands (thorough) of seeded sequences. Exploration: it shows the property on the sequences run, not for all.", shards=(4, 16), timeout_s=(300, 1800),
-        require=["variance_model_checks", "warmup_mean_checks_after_an_update", "minimum_updates_modelled_as_a_sample", "concurrent_reset_rounds", "adds_changing_value", "adds_not_changing_value", "reset_twin_pairs", "window_folds", "hull_checks",
+        require=["percentile_samples_equal_to_the_estimate", "variance_model_checks", "warmup_mean_checks_after_an_update", "minimum_updates_modelled_as_a_sample", "concurrent_reset_rounds", "adds_changing_value", "adds_not_changing_value", "reset_twin_pairs", "window_folds", "hull_checks",
                  "warmup_mean_checks", "concurrent_minimum_rounds", "variance_alpha_twin_pairs", "concurrent_single_update_rounds"],
         rule="PRNG op sequences (add/get/update/reset) over samples in [1,2^50] for each primitive (minimum, single, "
              "exp-average, simple EMA, moving variance, windowless percentile) run in lock-step with a reference fold; "
@@ -43,7 +43,7 @@ CHECKS = {
     "C06": dict(
         pkg="c06", race=False, shard_env={"GO_CONCURRENCY_LIMIT_LOG10ROOT_PRE_COMPUTE": "4096", "GO_CONCURRENCY_LIMIT_SQRT_PRE_COMPUTE": "4096"}, shards=(4, 16), timeout_s=(300, 1800),
         technique="before/after monitor on drop samples from seeded reachable states + bounded-progress monitor on sustained drop runs",
-        level_text="Vegas with a caller-supplied baseline measurement (SingleMeasurement): drops whose RTT is not below the baseline are applied (at most every second sample of a strictly rising run can be a probe). One Vegas / Gradient case in eight asks for the default maximum (the configured minimum still holds). A quarter of the Vegas cases carry caller-supplied step / threshold functions. From PRNG-generated reachable states (config + random prior history) every drop sample is checked for non-increase of the "
+        level_text="One Gradient sustained run in eight uses negative RTTs (a drop is a drop whatever it measured). Vegas with a caller-supplied baseline measurement (SingleMeasurement): drops whose RTT is not below the baseline are applied (at most every second sample of a strictly rising run can be a probe). One Vegas / Gradient case in eight asks for the default maximum (the configured minimum still holds). A quarter of the Vegas cases carry caller-supplied step / threshold functions. From PRNG-generated reachable states (config + random prior history) every drop sample is checked for non-increase of the "
                    "reported estimate, AIMD additionally for the exact rule max(1,min(limit-1,floor(limit*ratio))) (exact rational and float floor "
                    "both accepted); sustained drop runs with unique increasing RTTs (so probes are observable) must reach the floor within an "
                    "analytic bound of effective samples; cap without enough effective samples is inconclusive. Concurrent: N drops delivered to one AIMD limit at once must "
@@ -59,12 +59,12 @@ CHECKS = {
     "C07": dict(
         pkg="c07", race=False, shard_env={"GO_CONCURRENCY_LIMIT_LOG10ROOT_PRE_COMPUTE": "4096", "GO_CONCURRENCY_LIMIT_SQRT_PRE_COMPUTE": "4096"}, shards=(4, 16), timeout_s=(300, 1800),
         technique="before/after monitor on app-limited samples + bounded-progress (stuck-detection) monitor on healthy saturated runs from seeded reachable states",
-        level_text="AIMD healthy runs include successes of seconds up to 2^62 ns; Gradient runs started on the default ceiling 1000 (= size of the square-root table) with the default queue allowance; 8 rounds per concurrent-saturated case. Concurrent healthy rounds: M identical healthy samples delivered to one Vegas / Gradient / Gradient2 limit from 2-7 goroutines next to a goroutine polling EstimatedLimit() end at the estimate a twin reaches sequentially. One Vegas recovery run in five carries a caller-supplied threshold (0 / -1): growth by the default increase step, bound adjusted. A quarter of the non-AIMD recovery runs use a debug-enabled logger; one AIMD run in six asks for the default increment (0 / -1 => 1). Gradient recovery runs with probing disabled last 2100 samples and must never collapse at a probe. From PRNG-generated reachable states (valid config + prior history with drops, zero and huge RTTs): app-limited non-drop samples "
+        level_text="Exact steps: fresh Gradient / Gradient2 limits with smoothing exactly 1 and a fixed queue allowance q grow by q per healthy saturated sample (Gradient also at RTT 0; Gradient2 within one unit, its long-term average of a constant may sit an ulp below it). AIMD healthy runs include successes of seconds up to 2^62 ns; Gradient runs started on the default ceiling 1000 (= size of the square-root table) with the default queue allowance; 8 rounds per concurrent-saturated case. Concurrent healthy rounds: M identical healthy samples delivered to one Vegas / Gradient / Gradient2 limit from 2-7 goroutines next to a goroutine polling EstimatedLimit() end at the estimate a twin reaches sequentially. One Vegas recovery run in five carries a caller-supplied threshold (0 / -1): growth by the default increase step, bound adjusted. A quarter of the non-AIMD recovery runs use a debug-enabled logger; one AIMD run in six asks for the default increment (0 / -1 => 1). Gradient recovery runs with probing disabled last 2100 samples and must never collapse at a probe. From PRNG-generated reachable states (valid config + prior history with drops, zero and huge RTTs): app-limited non-drop samples "
                    "(2*inFlight < reported estimate; AIMD inFlight < limit, including the edge value) must not raise the estimate; healthy saturated "
                    "runs at the baseline RTT must add the increment on every sample (AIMD), grow by at least the queue allowance per non-probe sample "
                    "(Gradient), or bring the reported estimate to ceiling-1 within an analytic sample bound (Vegas, Gradient2); a run that stopped "
                    "rising below the ceiling is a violation, one still rising at the cap is inconclusive. Exploration.",
-        require=["aimd_healthy_samples_slower_than_a_millisecond", "gradient_recovery_runs_at_the_default_ceiling", "concurrent_healthy_rounds", "vegas_recovery_runs_with_a_caller_supplied_threshold", "recovery_runs_with_a_debug_logger", "aimd_recovery_runs_with_the_default_increment", "gradient_recovery_runs_with_probing_disabled", "app_limited_samples", "app_limited_samples_at_the_edge", "healthy_samples", "recovered/aimd", "recovered/vegas",
+        require=["exact_step_samples", "aimd_healthy_samples_slower_than_a_millisecond", "gradient_recovery_runs_at_the_default_ceiling", "concurrent_healthy_rounds", "vegas_recovery_runs_with_a_caller_supplied_threshold", "recovery_runs_with_a_debug_logger", "aimd_recovery_runs_with_the_default_increment", "gradient_recovery_runs_with_probing_disabled", "app_limited_samples", "app_limited_samples_at_the_edge", "healthy_samples", "recovered/aimd", "recovered/vegas",
                  "recovered/gradient", "recovered/gradient2", "gradient_probes_observed", "concurrent_saturated_rounds"],
         rule="case = (algorithm, valid config, random prefix of 0-150 hostile/drop-heavy/benign samples) then app-limited samples or a healthy "
              "saturated run; non-trivial = run started below ceiling-1 (always for app-limited cases); distinct = distinct (config, start estimate, history length).",
@@ -74,10 +74,10 @@ CHECKS = {
     "C08": dict(
         pkg="c08", race=False, shards=(4, 16), timeout_s=(300, 1800),
         technique="relational two-run monitor: identically seeded twin instances, same history, final sample differing only in RTT",
-        level_text="A fourth state class: an estimate that has just grown into its maximum (2/24). One case in five with a debug logger, one in twelve with out-of-range smoothing. The known finding is keyed by 'estimate above max AND built with initial > max'. Three state classes: PRNG history (19/24), estimate exactly at its maximum (3/24: initial = max, app-limited history), estimate above its maximum (2/24: initial > max). Twin instances of Vegas/Gradient/Gradient2 are built under the same math/rand seed (identical probe decisions), replay the same "
+        level_text="Gradient2 pairs after a constant-RTT run and one slower sample with the in-flight count right at half the (fractional) estimate and rtt_hi a few percent above the long-term mean. A fourth state class: an estimate that has just grown into its maximum (2/24). One case in five with a debug logger, one in twelve with out-of-range smoothing. The known finding is keyed by 'estimate above max AND built with initial > max'. Three state classes: PRNG history (19/24), estimate exactly at its maximum (3/24: initial = max, app-limited history), estimate above its maximum (2/24: initial > max). Twin instances of Vegas/Gradient/Gradient2 are built under the same math/rand seed (identical probe decisions), replay the same "
                    "PRNG prefix, then receive a final sample with rtt_lo < rtt_hi (both >= current baseline, same in-flight and drop flag); the "
                    "monitor requires estimate(rtt_hi) <= estimate(rtt_lo). Twins that diverge before the final sample are inconclusive. Exploration over seeded pairs.",
-        require=["pairs_from_an_estimate_grown_into_its_maximum", "pairs_from_an_estimate_exactly_at_its_maximum", "pairs_from_an_estimate_above_its_maximum", "pairs", "pairs_strictly_ordered", "pairs_where_estimate_moved"],
+        require=["gradient2_pairs_with_inflight_at_half_the_estimate", "pairs_from_an_estimate_grown_into_its_maximum", "pairs_from_an_estimate_exactly_at_its_maximum", "pairs_from_an_estimate_above_its_maximum", "pairs", "pairs_strictly_ordered", "pairs_where_estimate_moved"],
         rule="pair = (algorithm, valid config, prefix of 0-120 samples, rtt_lo/rtt_hi with relative gap >= 1e-6 and <= 2^40, in-flight, drop flag); "
              "non-trivial = at least one twin's estimate moved on the final sample; distinct = distinct (config, prefix length, rtt pair, in-flight, drop).",
         assumptions=COMMON_ASSUME + ["math/rand.Seed is effective for the library's jitter (harness go.mod 'go 1.23' keeps randseednop=0); twins are checked for equal state before the final sample"],
@@ -100,7 +100,7 @@ CHECKS = {
     "C16": dict(
         pkg="c16", race=False, shards=(4, 16), timeout_s=(300, 1800),
         technique="per-operation monitor: recording change listeners vs EstimatedLimit() before/after every OnSample/SetLimit",
-        level_text="Concurrent explicit sets on a SettableLimit (2-6 goroutines, distinct values, pausing listeners; bare / traced / windowed): at rest every listener holds the reported estimate. Gradient with bounds the constructor accepts although they contradict each other (maximum below the queue allowance or the minimum). Explicit sets to negative values. Gradient / Gradient2 also built below their own minimum; explicit sets to 0. Concurrent variant: in half of the cases 2-8 listeners are registered at the same moment from different goroutines; if any listener heard of a change, all did. For AIMD/Vegas/Gradient/Gradient2/Settable/Fixed and a scripted recorder, bare and under Windowed, Traced and Traced(Windowed): "
+        level_text="A second live instance of the same configuration registers its listeners in turn with the first one's; it receives no sample and must never be called. Concurrent explicit sets on a SettableLimit (2-6 goroutines, distinct values, pausing listeners; bare / traced / windowed): at rest every listener holds the reported estimate. Gradient with bounds the constructor accepts although they contradict each other (maximum below the queue allowance or the minimum). Explicit sets to negative values. Gradient / Gradient2 also built below their own minimum; explicit sets to 0. Concurrent variant: in half of the cases 2-8 listeners are registered at the same moment from different goroutines; if any listener heard of a change, all did. For AIMD/Vegas/Gradient/Gradient2/Settable/Fixed and a scripted recorder, bare and under Windowed, Traced and Traced(Windowed): "
                    "around every operation the monitor compares EstimatedLimit() before/after, requires every previously registered listener to "
                    "have been called if it changed, requires the last notified value to equal the new estimate, requires the wrapper's estimate "
                    "to equal the delegate's, and requires Traced to forward the sample unchanged. Listeners are registered at random points. "
@@ -115,7 +115,7 @@ CHECKS = {
     "C03": dict(
         pkg="c03", race=False, shards=(4, 16), timeout_s=(300, 2400),
         technique="lock-step reference-model monitor over seeded op sequences + porcupine linearizability check of recorded concurrent histories + quiescence invariant",
-        level_text="Two predicate strategies built from sub-slices of one array of partitions: additions to one (sequential or concurrent) leave the other admitting its own partitions. Requests that carry no tag or a non-string tag (never the empty tag), the empty pattern among the bundled matcher's patterns; lookup requests racing with the removal of their partition (400 rounds per storm case: admitted <=> the removal reports 1 busy). Matcher patterns and keys include U+0130 (lower-case form longer in UTF-8). Release-window rounds (1500 per case): total at the limit, both partitions at their share; one goroutine releases a token of a while another keeps asking for b until the freed slot can be borrowed and then asks for a - which must be admitted. Sequential: after every acquire/release/SetLimit/add/remove step on both partitioned strategies the grant decision (the iff of the "
+        level_text="A lookup partition may be registered under the empty key (with the default lookup function untagged requests are looked up under it). Two predicate strategies built from sub-slices of one array of partitions: additions to one (sequential or concurrent) leave the other admitting its own partitions. Requests that carry no tag or a non-string tag (never the empty tag), the empty pattern among the bundled matcher's patterns; lookup requests racing with the removal of their partition (400 rounds per storm case: admitted <=> the removal reports 1 busy). Matcher patterns and keys include U+0130 (lower-case form longer in UTF-8). Release-window rounds (1500 per case): total at the limit, both partitions at their share; one goroutine releases a token of a while another keeps asking for b until the freed slot can be borrowed and then asks for a - which must be admitted. Sequential: after every acquire/release/SetLimit/add/remove step on both partitioned strategies the grant decision (the iff of the "
                    "statement), total busy/limit, every bin count and every bin share are compared with an integer-arithmetic reference model "
                    "(dyadic and decimal fractions, zero fractions, unknown/unmatched/empty keys, overlapping predicates, limits set to <=0; lookup partition objects named differently from the key they are registered under, re-adding a registered key "
                    "must be refused; the bundled string matcher in both flavours with patterns in either case). "
@@ -123,7 +123,7 @@ CHECKS = {
                    "same model, bins must be zero at quiescence. Storms: 2-5 concurrent SetLimit callers, and AddPartition racing with a "
                    "limit change (barrier-released, 120 rounds): at quiescence every bin share must be the share of the limit in force. "
                    "Exploration over the sequences and interleavings produced.",
-        require=["strategies_built_from_sub_slices_of_one_array", "acquire_vs_remove_rounds", "release_window_rounds_with_a_borrowed_grant", "acquires", "releases", "setlimits", "partition_adds", "partition_removes", "grants_on_guaranteed_share_while_total_full",
+        require=["lookup_cases_with_a_partition_under_the_empty_key", "strategies_built_from_sub_slices_of_one_array", "acquire_vs_remove_rounds", "release_window_rounds_with_a_borrowed_grant", "acquires", "releases", "setlimits", "partition_adds", "partition_removes", "grants_on_guaranteed_share_while_total_full",
                  "grants_borrowing_beyond_share", "requests_for_unknown_or_unmatched_keys", "concurrent_histories", "histories_linearizable",
                  "overlapping_operation_pairs", "sequential_cases/lookup", "sequential_cases/predicate", "storm_quiescent_share_checks", "storm_add_vs_setlimit_rounds", "partition_duplicate_adds_refused"],
         rule="sequential case = (strategy kind, 1-5 partitions with fractions k/32 or k/100 summing <=1, total limit 1-50, 20-120 ops); concurrent case = "
@@ -135,7 +135,7 @@ CHECKS = {
     "C14": dict(
         pkg="c14", race=False, shards=(4, 16), timeout_s=(300, 1800),
         technique="event-sequence monitor over test doubles (recording limiter/listener/handler/invoker/stream, scripted classifiers)",
-        level_text="One limit-exceeded classifier in four returns a nil error (it only chooses the code). Calls whose own result is the error of their ended context (context.Canceled / DeadlineExceeded, verbatim); stream operations returning io.EOF, io.ErrUnexpectedEOF, context errors and status errors, followed by further operations on the same wrapper. Shared-interceptor cases use 8-64 goroutines over a real DefaultLimiter with the default limit-exceeded classifier under the scenario watchdog (a wedged limiter is classified as a library-mutex deadlock); default-direction cases: 20 receives parked in the transport, a send is still admitted. One stream in five runs behind another stream interceptor of this package (each gates every operation). Every intercepted call is judged from the recorded event sequence: exactly one Acquire, on the limiter configured for that "
+        level_text="StreamServerInfo with every combination of IsClientStream / IsServerStream. One limit-exceeded classifier in four returns a nil error (it only chooses the code). Calls whose own result is the error of their ended context (context.Canceled / DeadlineExceeded, verbatim); stream operations returning io.EOF, io.ErrUnexpectedEOF, context errors and status errors, followed by further operations on the same wrapper. Shared-interceptor cases use 8-64 goroutines over a real DefaultLimiter with the default limit-exceeded classifier under the scenario watchdog (a wedged limiter is classified as a library-mutex deadlock); default-direction cases: 20 receives parked in the transport, a send is still admitted. One stream in five runs behind another stream interceptor of this package (each gates every operation). Every intercepted call is judged from the recorded event sequence: exactly one Acquire, on the limiter configured for that "
                    "operation (unary / receive / send), before the wrapped call; wrapped call invoked iff granted; exactly one completion whose "
                    "outcome equals the consulted classifier's result (success for an error-free stream op; default classifiers when none configured); "
                    "result and error returned by identity; on refusal nothing else touched and the status code equals the limit-exceeded "
@@ -154,7 +154,7 @@ CHECKS = {
     "C20": dict(
         pkg="c20", race=False, shards=(8, 16), timeout_s=(600, 3000),
         technique="recording MetricRegistry + lock-step model of emitted samples/gauges; backend-content and dogstatsd wire-capture monitors; poller life-cycle monitor (goroutine census + poll counters)",
-        level_text="Address-built datadog registry: samples offered after Start / Stop still reach the loop-back agent (listener registered before and after); lookup table changes (AddPartition / RemovePartition of a key) while tokens are outstanding - per-partition in-flight samples still equal the bin's own count. Concurrent life-cycle cases begin with 25 rounds of simultaneous Starts (spin barrier): one poller, Stop returns, none left; forwarded metric ids include ones that begin with the prefix. Half of the polled-gauge cases register two of the three gauges after Start (the early gauge's poll count is the clock: 40 more polls without the late ones being polled is a violation). Limiter-path cases: the in-flight sample an instrumented limit emits per window equals the peak at admission incl. dropped requests, drop counter iff the window had a drop; concurrent limiter cases: no in-flight figure above the constant limit. With a recording registry every admission decision of Simple/Precise/Lookup/Predicate strategies must emit exactly the in-flight "
+        level_text="Limit moved from outside (SettableLimit): after the next window the algorithm's limit gauge and the strategy's limit gauge both report the new value. Address-built datadog registry: samples offered after Start / Stop still reach the loop-back agent (listener registered before and after); lookup table changes (AddPartition / RemovePartition of a key) while tokens are outstanding - per-partition in-flight samples still equal the bin's own count. Concurrent life-cycle cases begin with 25 rounds of simultaneous Starts (spin barrier): one poller, Stop returns, none left; forwarded metric ids include ones that begin with the prefix. Half of the polled-gauge cases register two of the three gauges after Start (the early gauge's poll count is the clock: 40 more polls without the late ones being polled is a violation). Limiter-path cases: the in-flight sample an instrumented limit emits per window equals the peak at admission incl. dropped requests, drop counter iff the window had a drop; concurrent limiter cases: no in-flight figure above the constant limit. With a recording registry every admission decision of Simple/Precise/Lookup/Predicate strategies must emit exactly the in-flight "
                    "(bin) count at the decision, gauges must equal the enforced limit/shares after every step, every OnSample of every limit kind must "
                    "emit rtt and in-flight once and the drop counter iff dropped under the prefixed names. The bundled registries are checked through the "
                    "go-metrics registry contents and the captured dogstatsd wire lines (kind suffix, prefixed name, value), the address-based datadog "
@@ -164,7 +164,7 @@ CHECKS = {
                    "Start/Stop/RegisterGauge sequences (sequential and concurrent) with a census of live poller goroutines (1 iff started, never 2, 0 "
                    "after Stop returns), frozen supplier counts while stopped, and a watchdog that classifies a hang as the Stop-vs-tick wait-for cycle "
                    "from the goroutine dump. Exploration.",
-        require=["lookup_table_changes_with_tokens_outstanding", "samples_after_a_stop_checked_via_udp", "simultaneous_start_rounds", "gauges_registered_after_start", "limiter_path_windows", "concurrent_limiter_inflight_samples", "queue_gauge_dynamic_cases", "strategy_decisions", "partition_decisions", "limit_samples", "limit_drop_samples", "gauge_reads", "forwarded_samples_checked",
+        require=["limit_gauges_compared_after_an_external_set", "lookup_table_changes_with_tokens_outstanding", "samples_after_a_stop_checked_via_udp", "simultaneous_start_rounds", "gauges_registered_after_start", "limiter_path_windows", "concurrent_limiter_inflight_samples", "queue_gauge_dynamic_cases", "strategy_decisions", "partition_decisions", "limit_samples", "limit_drop_samples", "gauge_reads", "forwarded_samples_checked",
                  "polled_gauge_checks", "forwarded_samples_checked_via_udp", "lifecycle_states_checked", "frozen_poll_count_checks", "live_poll_observations", "lifecycle_cases/gometrics",
                  "lifecycle_cases/datadog", "concurrent_lifecycle_cases", "concurrent_strategy_sample_rounds"],
         rule="case kinds: strategy op sequence (30-80 ops), partitioned strategy op sequence, limit sample sequence (30-90 samples, every limit kind incl. "
@@ -195,7 +195,7 @@ CHECKS = {
     "C10": dict(
         pkg="c10", race=False, shards=(8, 16), timeout_s=(600, 3600),
         technique="quiescence-invariant monitor in a synctest bubble under forced schedules (releases injected at schedule points via instrumented delegate, verif hooks and an actor goroutine)",
-        level_text="Point cancel-right-after-the-handoff (eviction on): the next-in-line caller's context ends when the token has just been put into its hands. Further points: the second holder completes while the first hand-off is inside the simple strategy (verif point); eviction off, the cancelled next-in-line stays queued, a release whose hand-off the delegate refuses (GateLimiter.RefuseNext), a newcomer takes and completes the unit - the cancelled caller is still served in its turn. Further points: the woken winner's context ends at its wake-up while the losers go back to sleep (blocking / deadline); a release after one more caller was turned away at a backlog that holds exactly its maximum. Every delegate attempt must carry a caller's own context (a hand-off evaluated for another context is evaluated for another caller). Liveness restated as safety at quiescence: after every release, when all goroutines of the bubble are durably blocked and virtual time "
+        level_text="Queue kinds without any backlog time-out; half of the real-time stress runs have two readers hammering the delegate's EstimatedLimit() / String(). Point cancel-right-after-the-handoff (eviction on): the next-in-line caller's context ends when the token has just been put into its hands. Further points: the second holder completes while the first hand-off is inside the simple strategy (verif point); eviction off, the cancelled next-in-line stays queued, a release whose hand-off the delegate refuses (GateLimiter.RefuseNext), a newcomer takes and completes the unit - the cancelled caller is still served in its turn. Further points: the woken winner's context ends at its wake-up while the losers go back to sleep (blocking / deadline); a release after one more caller was turned away at a backlog that holds exactly its maximum. Every delegate attempt must carry a caller's own context (a hand-off evaluated for another context is evaluated for another caller). Liveness restated as safety at quiescence: after every release, when all goroutines of the bubble are durably blocked and virtual time "
                    "has not moved, 'capacity free and a caller still blocked' is a violation. The release is injected at: before arrival, after the "
                    "caller's 1st/2nd failed delegate attempt, between backlog push and select (verif hooks), when asleep, at the failed retry of a woken "
                    "loser, while unblock hands to a waiter that is being cancelled / timing out at the same instant, and with the broadcast delayed after "
@@ -203,7 +203,7 @@ CHECKS = {
                    "a slot that is counted busy although nobody holds it while callers are blocked is a violation too; a second holder completing at the instant a release's hand-off attempt is refused by the delegate, a release through a delegate listener that is slow to give the unit back, and (blocking / deadline) a release while the caller's subscribe helper is about to take the condition's lock (verif point) - for blocking (timeout 0 / T), deadline and queue FIFO/LIFO x eviction on/off, capacity 1-2, 1-3 waiters, all "
                    "outcomes. One case in fifty is a real-time stress run (4-16 goroutines, zero hold, timeout 0 / 1h, 200 iterations each) whose "
                    "stuck state (no progress for two watchdog periods, capacity free, workers inside Acquire) is a violation. Exploration of forced interleavings, not all schedules.",
-        require=["scenarios", "quiescent_snapshots", "scenarios_reaching_their_schedule_point", "snapshots_with_blocked_callers",
+        require=["stress_runs_with_readers_on_the_delegate", "scenarios", "quiescent_snapshots", "scenarios_reaching_their_schedule_point", "snapshots_with_blocked_callers",
                  "reached/after-failed-attempt-1", "reached/queue.after_push", "reached/queue.before_push", "reached/loser-retry",
                  "reached/handoff-vs-cancel", "reached/handoff-vs-timeout", "reached/next-in-line-cancelled-but-not-evicted", "reached/asleep", "reached/parallel-releases", "reached/slow-inner-release", "reached/helper-before-lock", "reached/winner-cancelled-at-wakeup", "reached/release-after-a-rejection-at-the-full-backlog", "reached/second-release-inside-the-strategy", "reached/refused-handoff-with-a-cancelled-head", "reached/cancel-right-after-the-handoff", "stress_runs", "stress_grants"],
         rule="scenario grid = limiter kind (7) x release point (12-16) x capacity {1,2} x waiters {1,2,3} x outcome (3); quick runs the grid 3 times, thorough 1500 "
@@ -214,7 +214,7 @@ CHECKS = {
     "C11": dict(
         pkg="c11", race=False, shards=(4, 16), timeout_s=(600, 3000),
         technique="grant-order monitor in a synctest bubble: arrival order fixed by quiescence between arrivals, observed grant vs FIFO/LIFO model of still-waiting callers",
-        level_text="Evicting queues without any backlog time-out (MaxBacklogTimeout < 0). Arrivals with an already-done context (eviction on: turned away at once, never part of the line) and with a context deadline that passes while queued (eviction off: the caller keeps its place and is served). A release landing on an arriving caller (verif point before the push): the unit goes to the caller the order designates among the queued ones and the newcomer. Capacity 1 is held; waiters arrive one at a time with synctest.Wait() between arrivals (arrival order is a fact); PRNG interleaves "
+        level_text="Release while the limiter lock is busy (a third caller paused before its push): the completion, once returned, has offered its unit to the queue - a caller arriving afterwards cannot overtake. Evicting queues without any backlog time-out (MaxBacklogTimeout < 0). Arrivals with an already-done context (eviction on: turned away at once, never part of the line) and with a context deadline that passes while queued (eviction off: the caller keeps its place and is served). A release landing on an arriving caller (verif point before the push): the unit goes to the caller the order designates among the queued ones and the newcomer. Capacity 1 is held; waiters arrive one at a time with synctest.Wait() between arrivals (arrival order is a fact); PRNG interleaves "
                    "arrivals, cancellations (eviction on), staggered time-outs, releases and releases whose hand-off attempt the (injected) delegate "
                    "refuses; after each release exactly one waiter must be granted and it "
                    "must be the oldest (FIFO) / newest (LIFO) still waiting. Releases that coincide with a departure - the holder completes in the same breath as a "
@@ -223,7 +223,7 @@ CHECKS = {
                    "and leaves (cancelled) must be refused, not take the unit. Two-holder rounds (capacity 2, three queued callers): the second holder completes at the instant the first release's "
                    "further hand-off attempt is refused (or right afterwards) - the two units must be held by the first two callers in order. Every constructor: FromConfig{fifo,lifo,default}, WithDefaults, the "
                    "deprecated Fifo/Lifo constructors (+WithDefaults), FixedPool and Pool with OrderingFIFO/LIFO (also with backlog sizes 0 / -1 = default). Exploration over seeded scenarios.",
-        require=["constructor/FromConfig{fifo,evict,no-timeout}", "arrivals_with_a_done_context", "arrivals_whose_context_deadline_passes_while_queued", "releases_landing_on_an_arriving_caller", "two_holder_rounds", "two_holder_rounds_with_parallel_releases", "departures_while_a_unit_lies_free", "releases_coinciding_with_a_departure", "grants_checked", "grants_with_a_choice", "releases_with_refused_handoff", "scenarios/fifo", "scenarios/lifo", "constructor/WithDefaults",
+        require=["releases_while_the_limiter_lock_was_busy", "constructor/FromConfig{fifo,evict,no-timeout}", "arrivals_with_a_done_context", "arrivals_whose_context_deadline_passes_while_queued", "releases_landing_on_an_arriving_caller", "two_holder_rounds", "two_holder_rounds_with_parallel_releases", "departures_while_a_unit_lies_free", "releases_coinciding_with_a_departure", "grants_checked", "grants_with_a_choice", "releases_with_refused_handoff", "scenarios/fifo", "scenarios/lifo", "constructor/WithDefaults",
                  "constructor/NewLifoBlockingLimiterWithDefaults", "constructor/FixedPool{OrderingLIFO}", "constructor/Pool{OrderingFIFO}"],
         rule="scenario = (constructor (20), 6-20 ops: arrival / cancel / time-out of the oldest / release); non-trivial = at least two grants; distinct = distinct (constructor, trace).",
         assumptions=COMMON_ASSUME + ["a caller whose time-out or cancellation coincides with a release may legitimately still be granted (it was queued when the hand-off happened)"],
@@ -231,7 +231,7 @@ CHECKS = {
     "C13": dict(
         pkg="c13", race=False, shards=(4, 16), timeout_s=(600, 3000),
         technique="exact-instant monitor on a synctest virtual clock: return instant of every blocked Acquire vs its bound, busy count after refusals",
-        level_text="Ordered pools built by pool.NewPool (explicit time-out; 0 / negative = the documented default of one second); cancellation immediately followed by the release (nothing in between), optionally with a second caller queued. After-a-cancelled-waiter scenarios: a second caller arriving after another caller was cancelled is refused at exactly its own bound; cancel-at-handoff scenarios (queue, eviction on): the call returns at the instant of release and cancellation. Real-time release-in-progress cases: a caller arriving while another caller's completion is in progress (slow delegate listener) is still bounded by its context / the deadline. For blocking (timeout 0/T), deadline and queue (FIFO/LIFO, eviction on/off) limiters with capacity exhausted and no release, the "
+        level_text="Cancellation of a caller that is not the longest-waiting one (2-3 blocked, nothing released); deadlines expressed in fixed zones east and west of UTC. Ordered pools built by pool.NewPool (explicit time-out; 0 / negative = the documented default of one second); cancellation immediately followed by the release (nothing in between), optionally with a second caller queued. After-a-cancelled-waiter scenarios: a second caller arriving after another caller was cancelled is refused at exactly its own bound; cancel-at-handoff scenarios (queue, eviction on): the call returns at the instant of release and cancellation. Real-time release-in-progress cases: a caller arriving while another caller's completion is in progress (slow delegate listener) is still bounded by its context / the deadline. For blocking (timeout 0/T), deadline and queue (FIFO/LIFO, eviction on/off) limiters with capacity exhausted and no release, the "
                    "blocked call must return refused at exactly its bound (backlog timeout, deadline, cancellation instant; cancellation ignored by the "
                    "queue limiter without eviction) - not earlier, not later - with cancellation placed before / at / after arrival and at / after the "
                    "bound, arrivals before / at / after / less than a millisecond (down to 1 ns) before the deadline; calls for which no bound applies must still be blocked; already-cancelled "
@@ -241,7 +241,7 @@ CHECKS = {
                    "the backlog time-out disabled (negative) are bounded by the context only (eviction on) or not at all; deadline limiters with an 'effectively never' "
                    "deadline (beyond 2262, e.g. now+MaxInt64ns, 9999-12-31) must grant free capacity and keep a call blocked until its context ends or capacity is offered. "
                    "Exploration over a grid x PRNG durations.",
-        require=["ordered_pool_cases", "cancel_immediately_followed_by_release_scenarios", "after_cancelled_waiter_scenarios", "cancel_at_handoff_scenarios", "release_in_progress_cases", "scenarios", "exact_return_instants_checked", "refused_calls_hold_nothing_checks", "calls_correctly_still_blocked",
+        require=["cancel_of_a_newer_waiter_scenarios", "ordered_pool_cases", "cancel_immediately_followed_by_release_scenarios", "after_cancelled_waiter_scenarios", "cancel_at_handoff_scenarios", "release_in_progress_cases", "scenarios", "exact_return_instants_checked", "refused_calls_hold_nothing_checks", "calls_correctly_still_blocked",
                  "calls_exactly_at_the_deadline", "family/queue", "family/deadline", "family/blocking", "contexts_ending_by_their_own_deadline", "two_waiter_scenarios", "slow_delegate_scenarios", "far_deadline_scenarios"],
         rule="grid = limiter kind (9) x cancel placement (6) x arrival placement (3, deadline only) x capacity exhausted/free, each with PRNG timeout "
              "(1ms-1h), arrival and cancel instants; quick 20 per cell, thorough 5000; all cases non-trivial; distinct = distinct (cell, instants).",
@@ -250,12 +250,12 @@ CHECKS = {
     "C12": dict(
         pkg="c12", race=False, shards=(4, 16), timeout_s=(600, 3000),
         technique="quiescence-invariant monitor in a synctest bubble: queue_size gauge (recording registry) = backlog length (verif accessor) = callers inside Acquire <= bound; zero-virtual-time refusal at a full backlog",
-        level_text="Releases whose hand-off the delegate refuses (GateLimiter.RefuseNext), after which the caller the hand-off was for is cancelled / times out. A quarter of the scenarios run with the backlog time-out disabled (negative). Release ops that cancel the hand-off target while the delegate is being asked; pool cases (FixedPool / Pool x FIFO/LIFO): exactly the configured backlog bound of callers waits, further ones are refused at once, queue gauges agree. One single arrival in four comes with an already-done context. PRNG sequences of single arrivals, simultaneous bursts, releases (all outcomes), cancellations and time advances (across backlog "
+        level_text="The bound is also checked through the deprecated FIFO / LIFO constructors (explicit and default time-out) and a configuration decoded by encoding/json. Releases whose hand-off the delegate refuses (GateLimiter.RefuseNext), after which the caller the hand-off was for is cancelled / times out. A quarter of the scenarios run with the backlog time-out disabled (negative). Release ops that cancel the hand-off target while the delegate is being asked; pool cases (FixedPool / Pool x FIFO/LIFO): exactly the configured backlog bound of callers waits, further ones are refused at once, queue gauges agree. One single arrival in four comes with an already-done context. PRNG sequences of single arrivals, simultaneous bursts, releases (all outcomes), cancellations and time advances (across backlog "
                    "time-outs) on the queue limiter (FIFO/LIFO/default, eviction on/off, backlog 1-4, capacity 1-2), optionally with yields at the "
                    "check->push, push->select and hand-off windows. At every quiescent point the public queue_size gauge, the backlog length and the "
                    "number of callers whose Acquire has not returned must agree and stay within the bound; an arrival at a full backlog must be "
                    "refused at the instant it arrived; a cancelled caller (eviction on) must have left. Exploration.",
-        require=["releases_whose_hand_off_the_delegate_refused", "pool_backlog_bound_cases", "arrivals_with_a_done_context", "scenarios", "quiescent_checks", "arrivals_at_full_backlog", "simultaneous_bursts", "give_ups_overlapping_a_release", "default_bound_cases", "return_instant_backlog_checks", "return_instant_stress_runs"],
+        require=["backlog_bound_cases/json-config", "backlog_bound_cases/fifo-constructor", "releases_whose_hand_off_the_delegate_refused", "pool_backlog_bound_cases", "arrivals_with_a_done_context", "scenarios", "quiescent_checks", "arrivals_at_full_backlog", "simultaneous_bursts", "give_ups_overlapping_a_release", "default_bound_cases", "return_instant_backlog_checks", "return_instant_stress_runs"],
         rule="scenario = (queue config, capacity, 8-32 ops: arrive / burst of 2-5 / release / cancel / sleep); non-trivial = more than 5 quiescent "
              "checks; distinct = distinct (config, op list).",
         assumptions=COMMON_ASSUME,
@@ -280,14 +280,14 @@ CHECKS = {
     "C02": dict(
         pkg="c02", race=False, shards=(8, 16), timeout_s=(600, 3600),
         technique="conservation monitor: per-layer counts vs harness token ledger after every step / at every quiescent point (synctest), exactly-once accounting of delegate tokens, re-admission of the full limit",
-        level_text="Removed partition objects are added again while tokens granted before the removal are outstanding (lookup and predicate): bins stay equal to the outstanding tokens charged to them. Last-completion cases: the only holder of a queue limiter completes while a newcomer is between re-check and push / push and select (verif points) - afterwards nothing is left behind. Half of the predicate stacks carry a catch-all partition registered last (overlapping predicates: only the first matching bin is charged). Sequential cases change the strategy's limit (also below what is outstanding) - nothing granted is written off. Shared-context cases: 2-4 callers queued with one and the same context value, the oldest times out, the holder completes - every caller is an individual. (A') 150 rounds per case in which one holder completes while another caller is being admitted (a user metric registry yields inside the strategy's sample emission): at rest strategy count and limiter gauge equal the tokens outstanding. (A) DefaultLimiter over Simple/Precise/Lookup/Predicate, sequential random acquire/complete with all outcomes: strategy busy, bin "
+        level_text="One acquire in four of the sequential cases carries an expired or cancelled context; simultaneous completions: every token of a full limiter (25 small stacks per case, and the partitioned strategies alone with 512 tokens given back by 16 goroutines in tight loops) - all counts return to zero. Removed partition objects are added again while tokens granted before the removal are outstanding (lookup and predicate): bins stay equal to the outstanding tokens charged to them. Last-completion cases: the only holder of a queue limiter completes while a newcomer is between re-check and push / push and select (verif points) - afterwards nothing is left behind. Half of the predicate stacks carry a catch-all partition registered last (overlapping predicates: only the first matching bin is charged). Sequential cases change the strategy's limit (also below what is outstanding) - nothing granted is written off. Shared-context cases: 2-4 callers queued with one and the same context value, the oldest times out, the holder completes - every caller is an individual. (A') 150 rounds per case in which one holder completes while another caller is being admitted (a user metric registry yields inside the strategy's sample emission): at rest strategy count and limiter gauge equal the tokens outstanding. (A) DefaultLimiter over Simple/Precise/Lookup/Predicate, sequential random acquire/complete with all outcomes: strategy busy, bin "
                    "busy and the limiter's in-flight gauge equal the harness's outstanding tokens after every step. (B) blocking / deadline / queue stacks in a "
                    "synctest bubble with arrivals, bursts, releases, cancellations, time advances across time-outs and releases placed at the very "
                    "instant of a bound, optional yields in the push/hand-off windows: at every quiescent point busy = gauge = outstanding delegate tokens = "
                    "granted - completed, listener!=nil iff ok, no delegate token completed twice; after teardown all zero, backlog empty, exactly the limit "
                    "re-admitted. (C) real-time stress (8-16 goroutines, random cancels, 1-3 ms time-outs) with the same end-state checks. (D) pools "
                    "behaviourally. Exploration.",
-        require=["partition_readded_with_tokens_outstanding", "last_completion_at_push_cases", "limit_lowered_below_outstanding_tokens", "shared_context_cases", "gauge_at_rest_checks", "sequential_layer_checks", "completions/success", "completions/ignore", "completions/dropped", "bubble_scenarios/blocking",
+        require=["acquires_with_an_ended_context", "simultaneous_completion_rounds", "partition_readded_with_tokens_outstanding", "last_completion_at_push_cases", "limit_lowered_below_outstanding_tokens", "shared_context_cases", "gauge_at_rest_checks", "sequential_layer_checks", "completions/success", "completions/ignore", "completions/dropped", "bubble_scenarios/blocking",
                  "bubble_scenarios/deadline", "bubble_scenarios/queue", "quiescent_checks", "give_up_events_injected",
                  "releases_at_the_instant_of_a_bound", "bubble_scenarios_with_slow_delegate", "unknown_bin_conservation_probes", "partition_removed_with_tokens_outstanding", "stress_grants", "stress_refusals", "pool_cases"],
         rule="cases: sequential stack (40-120 ops), bubble scenario (8-32 ops on a PRNG limiter kind/capacity/time-out), pool churn, stress run; non-trivial = "
@@ -297,12 +297,12 @@ CHECKS = {
     "C05": dict(
         pkg="c05", race=False, shards=(4, 16), timeout_s=(600, 3000),
         technique="recording limit (scripted or wrapping a real algorithm) + equality monitor on the strategy's enforced limit and partition shares after construction and after every sample-driven update (synctest clock closes windows deterministically)",
-        level_text="The pollers of the concurrent variant also call the partition objects' own accessors (Limit, BusyCount, IsLimitExceeded, String). One lookup stack in five has no named partition left (removed after construction): updates still reach the strategy. One case in four builds the strategy with the very number the algorithm starts from (also 0 / negative); one case in twenty goes through NewDefaultLimiterWithDefaults with a strategy built with another number. One case in six uses an algorithm whose estimate is changed from outside between windows (SettableLimit) - after the next completed window enforcement must follow. DefaultLimiter over Simple/Precise/Lookup/Predicate with a recording core.Limit whose estimate trajectory contains 0, negative, "
+        level_text="Decimal fractions (k/100): the share is the round-up of total x fraction evaluated on the float64 actually passed - the round-up of the float product or of the exact product (big.Rat), usually the same number. The pollers of the concurrent variant also call the partition objects' own accessors (Limit, BusyCount, IsLimitExceeded, String). One lookup stack in five has no named partition left (removed after construction): updates still reach the strategy. One case in four builds the strategy with the very number the algorithm starts from (also 0 / negative); one case in twenty goes through NewDefaultLimiterWithDefaults with a strategy built with another number. One case in six uses an algorithm whose estimate is changed from outside between windows (SettableLimit) - after the next completed window enforcement must follow. DefaultLimiter over Simple/Precise/Lookup/Predicate with a recording core.Limit whose estimate trajectory contains 0, negative, "
                    "repeated and large values (or a real AIMD/Vegas/Gradient2 underneath): right after construction and after every completion during which "
                    "the recorder received an OnSample, the strategy's limit must equal max(1, the estimate the recorder returned) and every partition "
                    "share max(1, ceil(limit x fraction)) of that same value; the lookup strategy's unknown bucket is probed behaviourally. A concurrent "
                    "variant (8 goroutines completing) checks the equality at quiescence. Exploration.",
-        require=["defaults_constructor_cases", "out_of_band_estimate_changes", "enforcement_checks", "share_checks", "updates_observed", "unknown_bucket_probes", "concurrent_scenarios", "add_vs_update_rounds_with_an_update",
+        require=["decimal_share_checks", "defaults_constructor_cases", "out_of_band_estimate_changes", "enforcement_checks", "share_checks", "updates_observed", "unknown_bucket_probes", "concurrent_scenarios", "add_vs_update_rounds_with_an_update",
                  "scenarios/simple", "scenarios/precise", "scenarios/lookup", "scenarios/predicate"],
         rule="scenario = (strategy kind with dyadic fractions, scripted trajectory or real algorithm, windowSize 10-13, 150-550 driver steps or 8x40 "
              "concurrent iterations); non-trivial = at least two updates observed; distinct = distinct (config, update count).",
@@ -311,7 +311,7 @@ CHECKS = {
     "C01": dict(
         pkg="c01", race=False, shards=(4, 16), timeout_s=(600, 3600), parallel=4,
         technique="porcupine linearizability check of recorded client-boundary histories against a counting gate (held, limit) + offline interval sweep (lower/upper bounds of simultaneous holders) over long histories + at-hook assertion in an injected strategy wrapper that every SetLimit is applied while the estimate it carries is still in force, with sequential probes at rest",
-        level_text="Half of the direct precise-strategy histories use a metric registry that yields inside the strategy's sample emission (calls pile up behind an admission in progress). M2 limiters are built with a minimum-RTT threshold of 0, 100us or 1s (sub-threshold completions give their unit back like any other). M1: 2-8 goroutines drive DefaultLimiter over Simple/Precise (scripted estimate trajectory incl. 0/negative/repeats, or AIMD/Gradient2 "
+        level_text="Sequential gates whose limit does not come from a sample: the convenience constructor over a strategy built with a placeholder number (exactly the default estimate is granted before any window closed) and a SettableLimit moved by explicit sets (after the next window exactly the new value is granted). Half of the direct precise-strategy histories use a metric registry that yields inside the strategy's sample emission (calls pile up behind an admission in progress). M2 limiters are built with a minimum-RTT threshold of 0, 100us or 1s (sub-threshold completions give their unit back like any other). M1: 2-8 goroutines drive DefaultLimiter over Simple/Precise (scripted estimate trajectory incl. 0/negative/repeats, or AIMD/Gradient2 "
                    "underneath, window pre-filled so sample-driven SetLimit happens inside the history) and PreciseStrategy directly (with concurrent "
                    "SetLimit); call/return events on one logical clock, completions split into REL and SET at the recorded entry of the algorithm's "
                    "OnSample; porcupine decides whether some linearization is a legal run of an atomic counting gate (Illegal = violation with the history, "
@@ -322,7 +322,7 @@ CHECKS = {
                    "wrapper that is slow inside SetLimit; at the instant each SetLimit(v) is applied the algorithm's estimate must still be v, and at rest after every "
                    "burst the enforced limit equals the estimate and a sequential probe is granted exactly that many times. In all modes the number handed to the "
                    "strategy's constructor is a placeholder (equal, 1, or larger): the limiter must seed the strategy with the algorithm's value.",
-        require=["m1_histories", "m1_histories_linearizable", "m1_overlapping_operation_pairs", "m1_sample_driven_limit_updates", "m2_runs", "m2_refusals_checked", "m3_setlimit_applications_checked", "m3_probes_at_rest"],
+        require=["convenience_constructor_gates_checked", "explicit_set_gates_checked", "m1_histories", "m1_histories_linearizable", "m1_overlapping_operation_pairs", "m1_sample_driven_limit_updates", "m2_runs", "m2_refusals_checked", "m3_setlimit_applications_checked", "m3_probes_at_rest"],
         rule="M1 history = (target, algorithm, 2-8 goroutines x 2-10 pre-drawn ops); M2 run = (target, limit, goroutines, hold style); non-trivial = at least "
              "one overlapping operation pair (M1) / grants and refusals both occurred (M2); distinct = distinct (config, op count, overlaps).",
         assumptions=COMMON_ASSUME + ["porcupine v1.3.0; checker timeout 10 s = inconclusive", "logical timestamps come from one atomic counter incremented immediately before the call and immediately after the return"],
